@@ -39,7 +39,8 @@ def main():
         print(out)
         return 2
     try:
-        rc, out = sh(f"/venv/bin/python {src}/demo.py", cwd=wt, timeout=1200)
+        shutil.copy(f"{src}/demo.py", f"{wt}/_seed_demo.py")
+        rc, out = sh("/venv/bin/python _seed_demo.py", cwd=wt, timeout=1200)
         res["demo_clean_exit"] = rc
         if rc != 0:
             res["demo_clean_tail"] = out[-800:]
@@ -49,7 +50,7 @@ def main():
             res["apply_err"] = out[-500:]
             print(json.dumps(res, indent=1))
             return 1
-        rc, out = sh(f"/venv/bin/python {src}/demo.py", cwd=wt, timeout=1200)
+        rc, out = sh("/venv/bin/python _seed_demo.py", cwd=wt, timeout=1200)
         res["demo_patched_exit"] = rc
         res["demo_patched_tail"] = out[-600:]
         if not skip_suite:
@@ -62,7 +63,10 @@ def main():
         sh("git status --short | grep -v '^ M' | awk '{print $2}' | xargs -r rm -rf", cwd=wt)
         env = dict(os.environ, ARMI_REPO=wt, VERIF_NO_LEANCHECKER="1")
         t0 = time.time()
-        rc, out = sh(f"./check {prop} {tier}", cwd=VERIF, env=env, timeout=7200)
+        if "--no-check" in sys.argv:
+            rc, out = -1, ""
+        else:
+            rc, out = sh(f"./check {prop} {tier}", cwd=VERIF, env=env, timeout=7200)
         res["check_exit"] = rc
         res["check_wall_s"] = round(time.time() - t0, 1)
         res["check_lines"] = [l for l in out.split("\n") if l.startswith(("VIOLATION", "KNOWN-FINDING", "INFRA", prop))][:12]
